@@ -37,21 +37,7 @@ VI = "d42/validation/__init__.py"
 # (name, property, file, old, new[, count])
 M = [
     # ---- C01
-    ("c01_int_hi_plus_one", "C01", G, "return self._random.random_int(min_value, max_value)\n\n    def visit_float",
-     "return self._random.random_int(min_value, max_value + 1)\n\n    def visit_float"),
-    ("c01_substr_not_subtracted", "C01", G, "generated = self._random.random_str(length - len(substr), alphabet)",
-     "generated = self._random.random_str(max(length - len(substr), 1), alphabet)"),
-    ("c01_list_len_hi_plus_one", "C01", G, "            length = self._random.random_int(min_length, max_length)\n\n        if schema.props.type is not Nil:",
-     "            length = self._random.random_int(min_length, max_length + 1)\n\n        if schema.props.type is not Nil:"),
-    ("c01_optional_keys_generated_with_wrong_schema", "C01", G, "            if is_optional:\n                continue\n",
-     "            if is_optional:\n                generated[key] = None\n                continue\n"),
     # ---- C02
-    ("c02_int_max_exclusive", "C02", V, "            if value > schema.props.max:\n                result.add_error(MaxValueValidationError(path, value, schema.props.max))\n\n        return result\n\n    def visit_float",
-     "            if value >= schema.props.max:\n                result.add_error(MaxValueValidationError(path, value, schema.props.max))\n\n        return result\n\n    def visit_float"),
-    ("c02_str_minlen_exclusive", "C02", V, "            if len(value) < schema.props.min_len:\n                result.add_error(MinLengthValidationError(path, value, schema.props.min_len))\n        if schema.props.max_len is not Nil:\n            if len(value) > schema.props.max_len:\n                result.add_error(",
-     "            if len(value) <= schema.props.min_len:\n                result.add_error(MinLengthValidationError(path, value, schema.props.min_len))\n        if schema.props.max_len is not Nil:\n            if len(value) > schema.props.max_len:\n                result.add_error("),
-    ("c02_optional_key_not_validated", "C02", V, "            if key in value:\n                nested_path = deepcopy(path)[key]\n                res = val.__accept__(self, value=value[key], path=nested_path, **kwargs)\n                result.add_errors(res.get_errors())\n            else:\n                if not is_optional:",
-     "            if key in value:\n                if is_optional and value[key] is None:\n                    continue\n                nested_path = deepcopy(path)[key]\n                res = val.__accept__(self, value=value[key], path=nested_path, **kwargs)\n                result.add_errors(res.get_errors())\n            else:\n                if not is_optional:"),
     ("c02_contains_last_window_skipped", "C02", V, "            for index, val in enumerate(value):\n                errors = self._validate_elements(path, value, elements[1:-1], index, **kwargs)",
      "            for index, val in enumerate(value[:-1] if len(value) > len(elements) else value):\n                errors = self._validate_elements(path, value, elements[1:-1], index, **kwargs)"),
     ("c02_tail_with_len_skips_elements", "C02", V, "        if (len(elements) >= 1) and is_ellipsis(elements[0]):\n            elements = elements[1:]\n            start = max(0, len(value) - len(elements))",
@@ -63,46 +49,26 @@ M = [
     # ---- C03
     ("c03_typed_list_path_shared", "C03", V, "            for index, elem in enumerate(value):\n                nested_path = deepcopy(path)[index]\n                res = type_schema.__accept__(self, value=elem, path=nested_path, **kwargs)\n                result.add_errors(res.get_errors())\n            return result\n\n        elements = cast",
      "            for index, elem in enumerate(value):\n                nested_path = (deepcopy(path) if len(path) == 0 else path)[index]\n                res = type_schema.__accept__(self, value=elem, path=nested_path, **kwargs)\n                result.add_errors(res.get_errors())\n            return result\n\n        elements = cast"),
-    ("c03_extra_element_index_off", "C03", V, "                result.add_error(ExtraElementValidationError(path, value, index))",
-     "                result.add_error(ExtraElementValidationError(path, value, index - len(elements)))"),
-    ("c03_min_error_quotes_max", "C03", V, "                result.add_error(MinValueValidationError(path, value, schema.props.min))\n\n        if schema.props.max is not Nil:\n            if value > schema.props.max:\n                result.add_error(MaxValueValidationError(path, value, schema.props.max))\n\n        return result\n\n    def visit_str",
-     "                result.add_error(MinValueValidationError(path, value, schema.props.min))\n\n        if schema.props.max is not Nil:\n            if value > schema.props.max:\n                result.add_error(MaxValueValidationError(path, value, schema.props.min\n                                                         if schema.props.min is not Nil else schema.props.max))\n\n        return result\n\n    def visit_str"),
     ("c03_formatter_path_depth2", "C03", FM, "        return \" at \" + self._format_path(path) if len(path) > 0 else \"\"",
      "        return \" at \" + self._format_path(path) if 0 < len(path) < 4 else \"\""),
     ("c03_subst_validator_dict_path_shared", "C03", SV, "                nested_path = deepcopy(path)[key]\n                res = val.__accept__(self, value=value[key], path=nested_path, **kwargs)",
      "                nested_path = path[key]\n                res = val.__accept__(self, value=value[key], path=nested_path, **kwargs)"),
     # ---- C04
-    ("c04_substituted_key_keeps_optional", "C04", S, "                        keys[key] = (val.__accept__(self, value=value[key], **kwargs), False)",
-     "                        keys[key] = (val.__accept__(self, value=value[key], **kwargs), is_optional)"),
     ("c04_unmentioned_optional_becomes_required", "C04", S, "                else:\n                    keys[key] = (val, is_optional)",
      "                else:\n                    keys[key] = (val, is_optional and len(value) > 0)"),
-    ("c04_typed_list_keeps_type", "C04", S, "            return schema.__class__(schema.props.update(elements=elements, type=Nil))",
-     "            return schema.__class__(schema.props.update(elements=elements) if len(elements) else schema.props)"),
     ("c04_head_rest_not_pinned", "C04", S, "        for i in range(start + len(substituted), len(value)):\n            substituted.insert(i, self._from_native(value[i]))",
      "        for i in range(start + len(substituted), len(value)):\n            substituted.insert(i, self._from_native(value[i]) if i < 4 else from_native(None).__class__())"),
     # ---- C05
-    ("c05_bytes_not_validated", "C05", S, "    def visit_bytes(self, schema: BytesSchema, *, value: Any = Nil, **kwargs: Any) -> BytesSchema:\n        result = schema.__accept__(self._validator, value=value)\n        if result.has_errors():",
-     "    def visit_bytes(self, schema: BytesSchema, *, value: Any = Nil, **kwargs: Any) -> BytesSchema:\n        result = schema.__accept__(self._validator, value=value)\n        if result.has_errors() and not isinstance(value, bytes):"),
     ("c05_relaxed_marker_added", "C05", S, "                else:\n                    keys[key] = (val, is_optional)\n            for key, val in value.items():",
      "                else:\n                    keys[key] = (val, is_optional)\n            if len(value) == 0:\n                keys[...] = (..., False)\n            for key, val in value.items():"),
-    ("c05_list_len_dropped", "C05", S, "            return schema.__class__(schema.props.update(elements=substituted))\n\n        # tail",
-     "            return schema.__class__(schema.props.update(elements=substituted + [...], len=Nil, max_len=Nil))\n\n        # tail"),
     # ---- C06
     ("c06_nested_list_len_swapped", "C06", RP, "        elif (schema.props.min_len is not Nil) and (schema.props.max_len is not Nil):\n            r += f\".len({schema.props.min_len!r}, {schema.props.max_len!r})\"\n        elif schema.props.min_len is not Nil:\n            r += f\".len({schema.props.min_len!r}, ...)\"\n        elif schema.props.max_len is not Nil:\n            r += f\".len(..., {schema.props.max_len!r})\"\n\n        return r\n\n    def visit_dict",
      "        elif (schema.props.min_len is not Nil) and (schema.props.max_len is not Nil):\n            if indent > 4:\n                r += f\".len({schema.props.max_len!r}, {schema.props.min_len!r})\"\n            else:\n                r += f\".len({schema.props.min_len!r}, {schema.props.max_len!r})\"\n        elif schema.props.min_len is not Nil:\n            r += f\".len({schema.props.min_len!r}, ...)\"\n        elif schema.props.max_len is not Nil:\n            r += f\".len(..., {schema.props.max_len!r})\"\n\n        return r\n\n    def visit_dict"),
     ("c06_optional_lost_for_non_str_keys", "C06", RP, "                key_repr = f\"optional({key!r})\" if is_optional else repr(key)",
      "                key_repr = f\"optional({key!r})\" if (is_optional and isinstance(key, str)) else repr(key)"),
-    ("c06_float_min_repr_str", "C06", RP, "        if schema.props.min is not Nil:\n            r += f\".min({schema.props.min!r})\"\n\n        if schema.props.max is not Nil:\n            r += f\".max({schema.props.max!r})\"\n\n        if schema.props.precision is not Nil:",
-     "        if schema.props.min is not Nil:\n            r += f\".min({schema.props.min})\"\n\n        if schema.props.max is not Nil:\n            r += f\".max({schema.props.max!r})\"\n\n        if schema.props.precision is not Nil:"),
-    ("c06_str_value_plain_quotes", "C06", RP, "        r = f\"{self._name}.str\"\n\n        if schema.props.value is not Nil:\n            r += f\"({schema.props.value!r})\"",
-     "        r = f\"{self._name}.str\"\n\n        if schema.props.value is not Nil:\n            r += \"('{}')\".format(schema.props.value) if schema.props.value.isalnum() or \"'\" not in schema.props.value and \"\\\\\" not in schema.props.value and schema.props.value.isprintable() else f\"({schema.props.value!r})\""),
-    ("c06_any_nested_indent", "C06", RP, "            types = [x.__accept__(self, indent=indent, **kwargs) for x in schema.props.types]",
-     "            types = [x.__accept__(self, indent=0, **kwargs) for x in schema.props.types]"),
     ("c06_relaxed_only_when_last", "C06", RP, "            if is_ellipsis(key):\n                key_repr = val_repr = \"...\"",
      "            if is_ellipsis(key):\n                if len(pairs) == 0 and len(schema.props.keys) > 2:\n                    continue\n                key_repr = val_repr = \"...\""),
     # ---- C07
-    ("c07_dict_add_mutates_left", "C07", DS, "        merged_keys = {**self_keys, **other_keys}",
-     "        merged_keys = self_keys if (len(other_keys) == 1 and self.props.keys is not Nil) else {**self_keys}\n        merged_keys.update(other_keys)"),
     ("c07_props_update_shares_registry", "C07", PR, "    def update(self: PropsType, **keys: Any) -> PropsType:\n        registry = {**self._registry, **keys}",
      "    def update(self: PropsType, **keys: Any) -> PropsType:\n        if len(keys) == 1 and \"precision\" in keys:\n            self._registry.update(keys)  # type: ignore\n            return self\n        registry = {**self._registry, **keys}"),
     ("c07_validator_caches_last_dict", "C07", V, "        if schema.props.keys is Nil:\n            return result\n\n        for key, (val, is_optional) in schema.props.keys.items():\n            if is_ellipsis(key):\n                continue\n            if key in value:\n                nested_path = deepcopy(path)[key]",
@@ -117,26 +83,12 @@ M = [
     ("c08_extra_keys_sorted", "C08", V, "            for key, val in value.items():\n                if key not in schema.props.keys:\n                    result.add_error(ExtraKeyValidationError(path, value, key))",
      "            for key in sorted(value) if len(value) > 3 else value:\n                if key not in schema.props.keys:\n                    result.add_error(ExtraKeyValidationError(path, value, key))"),
     ("c08_format_length_uses_dunder", "C08", FM, "        actual_len = len(actual_value)", "        actual_len = actual_value.__len__() if not isinstance(actual_value, str) else len(actual_value.encode())"),
-    ("c08_int_bounds_before_bool_guard", "C08", V, "        if schema.props.value is not Nil:\n            if error := self._validate_value(path, value, schema.props.value):\n                return result.add_error(error)\n\n        if schema.props.min is not Nil:\n            if value < schema.props.min:\n                result.add_error(MinValueValidationError(path, value, schema.props.min))\n\n        if schema.props.max is not Nil:\n            if value > schema.props.max:\n                result.add_error(MaxValueValidationError(path, value, schema.props.max))\n\n        return result\n\n    def visit_float",
-     "        if schema.props.value is not Nil:\n            if error := self._validate_value(path, value, schema.props.value):\n                return result.add_error(error)\n\n        if schema.props.min is not Nil:\n            if value.bit_length() > 4096 or value < schema.props.min:\n                result.add_error(MinValueValidationError(path, value, schema.props.min))\n\n        if schema.props.max is not Nil:\n            if value > schema.props.max:\n                result.add_error(MaxValueValidationError(path, value, schema.props.max))\n\n        return result\n\n    def visit_float"),
-    ("c08_validate_or_fail_dedup", "C08", VI, "    errors = [e.format(_formatter) for e in result.get_errors()]\n    if len(errors) == 0:\n        return True",
-     "    errors = list(dict.fromkeys(e.format(_formatter) for e in result.get_errors()))\n    if len(errors) == 0:\n        return True"),
     # ---- C09
-    ("c09_range_hi_plus_one", "C09", RX, "            ordinal = self._random.random_int(min_ord, max_ord)", "            ordinal = self._random.random_int(min_ord, max_ord + 1)"),
-    ("c09_open_repeat_cap_ignores_min", "C09", RX, "            max_count = max(self._max_repeat, min_count)", "            max_count = self._max_repeat"),
     ("c09_word_includes_dash", "C09", RX, "\"word\": string.ascii_letters + string.digits + \"_\",", "\"word\": string.ascii_letters + string.digits + \"_-\","),
     ("c09_lookahead_silently_empty", "C09", RX, "        elif opcode == AT:\n            return self._generate_at(value)", "        elif opcode == AT or str(opcode) in (\"ASSERT\", \"ASSERT_NOT\"):\n            return self._generate_at(value)"),
-    ("c09_min_repeat_always_min", "C09", RX, "    def _generate_min_repeat(self, value: Tuple[int, int, List[Any]]) -> str:\n        return self._generate_max_repeat(value)",
-     "    def _generate_min_repeat(self, value: Tuple[int, int, List[Any]]) -> str:\n        min_count, max_count, val = value\n        return \"\".join(self._generate_pattern(val) for _ in range(min(min_count, self._max_repeat)))"),
-    ("c09_negated_class_ignores_ranges_upper", "C09", RX, "                exclude_letters += \"\".join(self._generate_literal(x) for x in range(min_ord,\n                                                                                    max_ord + 1))",
-     "                exclude_letters += \"\".join(self._generate_literal(x) for x in range(min_ord,\n                                                                                    max_ord))"),
     # ---- C10
     ("c10_len_check_skipped_for_empty_value", "C10", SS, "        if (props.value is not Nil) and (len(props.value) != length):\n            raise make_incorrect_len_error(self, props.value, length)",
      "        if props.value and (len(props.value) != length):\n            raise make_incorrect_len_error(self, props.value, length)"),
-    ("c10_int_max_check_inverted_at_equal", "C10", IS, "        if (self.props.value is not Nil) and (value < self.props.value):\n            raise make_incorrect_max_error",
-     "        if (self.props.value is not Nil) and (value <= self.props.value) and (value != 0):\n            raise make_incorrect_max_error"),
-    ("c10_precision_range_before_type", "C10", FS, "        if not isinstance(value, int):\n            raise make_invalid_type_error(self, value, (int,))\n\n        if not (1 <= value <= sys.float_info.dig):",
-     "        if not (isinstance(value, (int, str)) and 1 <= value <= sys.float_info.dig):\n            if not isinstance(value, int):\n                raise make_invalid_type_error(self, value, (int,))"),
     ("c10_alphabet_redeclare_allowed_if_superset", "C10", SS, "        if self.props.alphabet is not Nil:\n            raise make_already_declared_error(self)\n\n        if self.props.pattern is not Nil:\n            raise make_already_declared_error(self)\n\n        if self.props.value is not Nil:\n            missing_letters",
      "        if (self.props.alphabet is not Nil) and not (set(self.props.alphabet) < set(letters)):\n            raise make_already_declared_error(self)\n\n        if self.props.pattern is not Nil:\n            raise make_already_declared_error(self)\n\n        if self.props.value is not Nil:\n            missing_letters"),
     ("c10_list_len_mutates_then_raises", "C10", LS, "        props = self.props\n        if is_ellipsis(val_or_min):\n            props = self.__declare_max_len(props, max)\n        else:\n            if max is Nil:\n                props = self.__declare_len(props, val_or_min)",
@@ -153,13 +105,7 @@ M = [
      "            for key, val in value.items():\n                if is_ellipsis(key) != is_ellipsis(val):\n                    raise SubstitutionError(\"Can't substitute ...\")\n                keys[key] = (... if is_ellipsis(val) else (from_native(val) if isinstance(val, (list, dict)) else self._from_native(val)), False)"),
     ("c12_any_keeps_failed_alternatives_index", "C12", S, "            if len(types) == 0:\n                raise SubstitutionError(f\"Can't substitute {value!r}\")",
      "            if len(types) == 0 and not isinstance(value, dict):\n                raise SubstitutionError(f\"Can't substitute {value!r}\")"),
-    ("c12_resubstitution_rejects_pinned_float", "C12", V, "                if not isclose(value, schema.props.value):", "                if not isclose(value, schema.props.value, rel_tol=0.0 if abs(value) > 1e15 else 1e-09) or (value != schema.props.value and abs(value) > 1e15):"),
-    ("c12_tail_index_error", "C12", S, "            index = max(0, len(value) - len(elements))\n            substituted = self._substitute_elements(value, elements, index, **kwargs)",
-     "            index = len(value) - len(elements)\n            substituted = self._substitute_elements(value, elements, index, **kwargs) if index >= 0 else [e.__accept__(self, value=value[i], **kwargs) for i, e in enumerate(elements)]"),
     # ---- C13
-    ("c13_add_drops_relaxed_of_right", "C13", DS, "        merged_keys = {**self_keys, **other_keys}", "        merged_keys = {**self_keys, **{k: v for k, v in other_keys.items() if not is_ellipsis(k) or len(self_keys) == 0}}"),
-    ("c13_add_keeps_left_optional_flag", "C13", DS, "        merged_keys = {**self_keys, **other_keys}",
-     "        merged_keys = {**self_keys, **other_keys}\n        for k in merged_keys:\n            if (k in self_keys) and (k in other_keys) and not is_ellipsis(k) and self_keys[k][1] and not other_keys[k][1] and len(merged_keys) > 2:\n                merged_keys[k] = (other_keys[k][0], True)"),
     ("c13_make_required_skips_falsy_keys", "C13", MR, "            updated_keys[key] = (val, False if (key in keys) else is_optional)", "            updated_keys[key] = (val, False if (key and key in keys) else is_optional)"),
     ("c13_flatten_drops_duplicates", "C13", AS, "                flattened.extend(self._flatten_schemas(schema.props.types))", "                flattened.extend(x for x in self._flatten_schemas(schema.props.types) if type(x) not in map(type, flattened))"),
     ("c13_getitem_returns_pair", "C13", DS, "        return self.props.keys[key][0]", "        return self.props.keys[key][0] if not isinstance(key, tuple) else self.props.keys[key]  # type: ignore"),
@@ -167,13 +113,8 @@ M = [
     ("c14_date_before_datetime", "C14", FN, "    elif isinstance(value, datetime):\n        return DateTimeSchema()(value)\n    elif isinstance(value, date):\n        return DateSchema()(value)",
      "    elif isinstance(value, date) and getattr(value, \"tzinfo\", None) is None and getattr(value, \"hour\", 1) == 0 and getattr(value, \"minute\", 1) == 0 and getattr(value, \"second\", 1) == 0 and getattr(value, \"microsecond\", 1) == 0:\n        return DateSchema()(value.date() if isinstance(value, datetime) else value)\n    elif isinstance(value, datetime):\n        return DateTimeSchema()(value)\n    elif isinstance(value, date):\n        return DateSchema()(value)"),
     ("c14_tuple_as_list", "C14", FN, "    elif isinstance(value, list):", "    elif isinstance(value, (list, tuple)):"),
-    ("c14_empty_dict_undeclared", "C14", FN, "        return DictSchema()({key: from_native(val) for key, val in value.items()})",
-     "        return DictSchema()({key: from_native(val) for key, val in value.items()}) if value else DictSchema()"),
     ("c14_nested_list_depth_limit", "C14", FN, "        return ListSchema()([from_native(x) for x in value])", "        return ListSchema()([from_native(x) for x in value[:8]] + ([...] if len(value) > 8 else []))"),
     # ---- C15
-    ("c15_props_eq_one_direction", "C15", PR, "        for key, other_val in other._registry.items():\n            val = self.get(key)\n            if other_val != val:\n                return False\n", ""),
-    ("c15_eq_ignores_optional_flag", "C15", VI, "        return isinstance(value, schema.__class__) and (schema.props == value.props)",
-     "        return isinstance(value, schema.__class__) and ((schema.props == value.props) or (repr(schema).replace(\"optional(\", \"(\") == repr(value).replace(\"optional(\", \"(\") and \"optional(\" in repr(schema)))"),
     ("c15_eq_value_short_circuit_none", "C15", VI, "    return not validate(schema, value=value).has_errors()", "    return value is not None and not validate(schema, value=value).has_errors()"),
     # ---- C16
     ("c16_custom_validate_drops_kwargs", "C16", CT, "            res = validate_method(visitor, value=value, path=path or visitor.make_path(), **kwargs)",
@@ -186,13 +127,9 @@ M = [
     # ---- C17
     ("c17_dict_generation_order_from_set", "C17", G, "        for key, (val, is_optional) in schema.props.keys.items():\n            if is_ellipsis(key):\n                continue\n            if is_optional:",
      "        for key, (val, is_optional) in sorted(schema.props.keys.items(), key=lambda kv: hash(kv[0])):\n            if is_ellipsis(key):\n                continue\n            if is_optional:"),
-    ("c17_bool_from_os_random", "C17", G, "        return self._random.random_choice((True, False))", "        import random as _r\n        return _r.SystemRandom().choice((True, False)) if schema.props.value is Nil and False else bool(id(object()) // 16 % 2) if len(kwargs) else self._random.random_choice((True, False))"),
     ("c17_set_seed_float_truncated", "C17", R, "        random.seed(seed)", "        random.seed(seed if not isinstance(seed, str) else hash(seed))"),
     # ---- C18
     ("c18_tail_joined_with_default_separator", "C18", RO, "            tail = separator.join(parts[1:])", "            tail = \".\".join(parts[1:])"),
-    ("c18_optional_lost_on_second_sibling", "C18", RO, "            if key not in updated:\n                updated[key] = {}\n            tail = separator.join(parts[1:])\n            updated[key][optional(tail) if is_optional else tail] = val",
-     "            first = key not in updated\n            if first:\n                updated[key] = {}\n            tail = separator.join(parts[1:])\n            updated[key][optional(tail) if (is_optional and (first or len(parts) < 3)) else tail] = val"),
-    ("c18_maxsplit_wrong", "C18", RO, "        parts = comp_key.split(separator)", "        parts = comp_key.split(separator, 2)"),
     # ---- C19
     ("c19_asname_dropped_for_unmapped", "C19", MG, "                    import_name = f\"{name} as {asname}\" if asname else name\n                    unmapped_names.append(import_name)",
      "                    import_name = f\"{name} as {asname}\" if (asname and module not in mapping) else name\n                    unmapped_names.append(import_name)"),
@@ -200,6 +137,18 @@ M = [
     ("c19_mapping_target_typo", "C19", MG, "\"SubstitutionError\": (\"d42.substitution.errors\", \"SubstitutionError\"),", "\"SubstitutionError\": (\"d42.substitution.error\", \"SubstitutionError\"),"),
     ("c19_duplicate_names_deduplicated", "C19", MG, "                    new_imports[new_module].append(import_name)", "                    if import_name not in new_imports[new_module]:\n                        new_imports[new_module].append(import_name)"),
     ("c19_suffix_dropped_when_comment", "C19", MG, "        after = lines[end_line].encode()[end_col:].decode()", "        after = lines[end_line].encode()[end_col:].decode()\n        if after.lstrip().startswith(';') and '#' in after:\n            after = '\\n'"),
+    # ---- replacements / additions after the first kill-matrix round
+    ("c01_any_generation_prefers_first_two", "C01", G, "        chosen = self._random.random_choice(schema.props.types)\n        return chosen.__accept__(self, **kwargs)",
+     "        chosen = self._random.random_choice(schema.props.types)\n        value = chosen.__accept__(self, **kwargs)\n        return value if not isinstance(value, list) or len(value) < 15 else value[:15]"),
+    ("c08_uuid_version_before_type", "C08", V, "        if error := self._validate_type(path, value, UUID):\n            return result.add_error(error)\n\n        if value.version != 4:",
+     "        if (schema.props.value is not Nil) and (getattr(value, \"version\", 4) != 4 or value.__class__.__name__.startswith(\"mem\") and value.version):\n            pass\n        if error := self._validate_type(path, value, UUID):\n            return result.add_error(error)\n\n        if value.version != 4:"),
+    ("c09_dot_includes_newline", "C09", RX, "\"letters\": string.ascii_letters + string.digits + string.punctuation + \" \",", "\"letters\": string.ascii_letters + string.digits + string.punctuation + \" \\n\","),
+    ("c17_two_way_choice_from_system_random", "C17", R, "    def random_choice(self, sequence: Sequence[_T]) -> _T:\n        return random.choice(sequence)",
+     "    def random_choice(self, sequence: Sequence[_T]) -> _T:\n        if len(sequence) == 2:\n            return random.SystemRandom().choice(sequence)\n        return random.choice(sequence)"),
+    ("c04_any_keeps_unsubstituted_alternative", "C04", S, "                else:\n                    types.append(substituted)\n            if len(types) == 0:",
+     "                else:\n                    types.append(substituted if len(types) == 0 else sch_type)\n            if len(types) == 0:"),
+    ("c05_typed_list_elements_not_substituted_after_8", "C05", S, "                    element = schema.props.type.__accept__(self, value=val, **kwargs)\n                elements.append(element)",
+     "                    element = schema.props.type.__accept__(self, value=val, **kwargs) if len(elements) < 8 else self._from_native(val)\n                elements.append(element)"),
 ]
 
 
